@@ -175,7 +175,8 @@ def claim_of(P, r):
             continue                   # a user function's own symbol: not a label or constant of the program
         isint = v.get("t") == "int"
         wide = isint and (len(str(v["v"])) > 11 or not (-BIG < int(v["v"]) < BIG))
-        syms.append({"name": s["name"], "int": isint, "wide": bool(wide), "v": int(v["v"]) if isint and not wide else 0})
+        syms.append({"name": s["name"], "int": isint, "wide": bool(wide), "v": int(v["v"]) if isint and not wide else 0,
+                     "size": -1 if (not isint or v.get("size") is None) else v["size"]})
     return {"pos": pos, "sizes": sizes, "bits": bits, "syms": syms}
 
 
@@ -183,7 +184,7 @@ def certificates(ck, seed, nprog, budgets, switches):
     """C02, semantic level: cascading-size programs under budgets x switches;
     every successful run's claimed final state is certified against the rules."""
     rng = random.Random(seed)
-    progs = [genasm.gen_cascade_program(rng) for _ in range(nprog)]
+    progs = [genasm.gen_cascade_program(rng) for _ in range(nprog)] + genasm.sized_constant_programs()
     jobs, owner = [], []
     for pi, P in enumerate(progs):
         text = genasm.render_program(P)
